@@ -955,6 +955,79 @@ func c14SavesQueuedBehindALock(ctx *Ctx) {
 	ctx.Nontrivial("saves-queued-behind-a-lock")
 }
 
+// c14SaveWhileAnUndecodableEntryIsLoaded: a fan's entry is undecodable (a large one, its type error at the very end); one
+// user loads it - which reports "not found" and discards it - while another user saves valid data for the same fan and
+// kind. A save that returned success is what a later load returns: the discard of the old entry must not take the new
+// one with it.
+func c14SaveWhileAnUndecodableEntryIsLoaded(ctx *Ctx) {
+	var big strings.Builder
+	big.WriteString("{")
+	for i := 0; i < 400000; i++ {
+		fmt.Fprintf(&big, "\"%d\":%d,", i, i%255)
+	}
+	big.WriteString("\"400000\":\"x\"}")
+	for round, kind := range []string{"data", "map", "data", "map", "data", "map"} {
+		dir := ctx.Path(uniqueId("c14discard"))
+		_ = os.MkdirAll(dir, 0755)
+		dbPath := filepath.Join(dir, "fan2go.db")
+		p := persistence.NewPersistence(dbPath)
+		_ = p.Init()
+		_ = p.SaveFanPwmMap("other", map[int]int{0: 0})
+		if err := plantRaw(dbPath, kind, "fanx", big.String()); err != nil {
+			ctx.Inconclusive("undecodable entry: " + err.Error())
+			_ = os.RemoveAll(dir)
+			return
+		}
+		wantF := map[int]float64{0: 0, 100: 1500.5, 255: 3000}
+		wantI := map[int]int{0: 0, 128: 130, 255: 255}
+		var wg sync.WaitGroup
+		var saveErr error
+		wg.Add(2)
+		go func() {
+			defer wg.Done()
+			if kind == "data" {
+				_, _ = p.LoadFanPwmData(mkDataFan("fanx", nil))
+			} else {
+				_, _ = p.LoadFanPwmMap("fanx")
+			}
+		}()
+		go func() {
+			defer wg.Done()
+			time.Sleep(time.Duration(round*7) * time.Millisecond)
+			q := persistence.NewPersistence(dbPath) // another user of the same file
+			if kind == "data" {
+				saveErr = q.SaveFanPwmData(mkDataFan("fanx", wantF))
+			} else {
+				saveErr = q.SaveFanPwmMap("fanx", wantI)
+			}
+		}()
+		wg.Wait()
+		ctx.Eval(1)
+		if saveErr != nil {
+			ctx.Count("saves_during_a_discard_that_reported_an_error", 1)
+			_ = os.RemoveAll(dir)
+			continue
+		}
+		var got, want string
+		var lerr error
+		if kind == "data" {
+			var d map[int]float64
+			d, lerr = p.LoadFanPwmData(mkDataFan("fanx", nil))
+			got, want = canonF(d), canonF(wantF)
+		} else {
+			var d map[int]int
+			d, lerr = p.LoadFanPwmMap("fanx")
+			got, want = canonI(d), canonI(wantI)
+		}
+		_ = os.RemoveAll(dir)
+		if lerr != nil || got != want {
+			ctx.Violation("acknowledged-save-lost:during-the-discard-of-an-undecodable-entry:"+kind, fmt.Sprintf("round %d: the save returned nil, the load afterwards returns %q (error %v), saved %q", round, got, lerr, want), nil)
+			return
+		}
+	}
+	ctx.Nontrivial("save-during-discard")
+}
+
 func init() {
 	register("C14", func(ctx *Ctx) {
 		switch ctx.Mode {
@@ -971,6 +1044,9 @@ func init() {
 		default:
 			if ctx.Batch == 0 {
 				c14SavesQueuedBehindALock(ctx)
+			}
+			if ctx.Batch == 1%ctx.Of {
+				c14SaveWhileAnUndecodableEntryIsLoaded(ctx)
 			}
 			n := ctx.N(1200, 30000)
 			for i := 0; i < n && !ctx.Abort; i++ {
